@@ -95,8 +95,30 @@ pub struct Cx {
     samples: Vec<Value>,
     max_call_ms: u64,
     slow_bound_ms: u64,
+    /// CPU time of this process when the current call began
+    call_cpu0: u64,
 }
 
+/// CPU time consumed by this (single-threaded) process so far, in milliseconds.  Time bounds
+/// are decided on CPU time, never on wall-clock time: on a loaded machine a worker may not be
+/// scheduled for many seconds, which says nothing about the subject.
+fn own_cpu_ms() -> u64 {
+    let mut ts = libc::timespec { tv_sec: 0, tv_nsec: 0 };
+    // SAFETY: plain syscall writing into a local timespec
+    unsafe { libc::clock_gettime(libc::CLOCK_PROCESS_CPUTIME_ID, &mut ts) };
+    ts.tv_sec as u64 * 1000 + ts.tv_nsec as u64 / 1_000_000
+}
+/// CPU time (user + system) of another process in milliseconds, from /proc/<pid>/stat.
+fn cpu_ms_of(pid: u32) -> Option<u64> {
+    let st = std::fs::read_to_string(format!("/proc/{pid}/stat")).ok()?;
+    // the command name (field 2) may contain spaces: fields are counted after the last ')'
+    let rest = &st[st.rfind(')')? + 2..];
+    let f: Vec<&str> = rest.split(' ').collect();
+    let ticks: u64 = f.get(11)?.parse::<u64>().ok()? + f.get(12)?.parse::<u64>().ok()?;
+    // SAFETY: sysconf has no preconditions
+    let hz = unsafe { libc::sysconf(libc::_SC_CLK_TCK) }.max(1) as u64;
+    Some(ticks * 1000 / hz)
+}
 fn now_ms() -> u64 {
     SystemTime::now().duration_since(UNIX_EPOCH).map(|d| d.as_millis() as u64).unwrap_or(0)
 }
@@ -142,6 +164,7 @@ impl Cx {
             samples: vec![],
             max_call_ms: 0,
             slow_bound_ms: 10_000,
+            call_cpu0: 0,
         }
     }
     pub fn for_replay(tier: Tier) -> Cx {
@@ -161,11 +184,13 @@ impl Cx {
             }
         }
         if let Some(f) = &self.progress {
-            let mut rec = [0u8; 32];
+            let mut rec = [0u8; 40];
             rec[0..8].copy_from_slice(&self.unit.to_le_bytes());
             rec[8..16].copy_from_slice(&self.sub.to_le_bytes());
             rec[16..24].copy_from_slice(&self.timeout_s.to_le_bytes());
             rec[24..32].copy_from_slice(&now_ms().to_le_bytes());
+            self.call_cpu0 = own_cpu_ms();
+            rec[32..40].copy_from_slice(&self.call_cpu0.to_le_bytes());
             let _ = f.write_at(&rec, 0);
         }
     }
@@ -183,8 +208,14 @@ impl Cx {
             self.max_call_ms = ms;
         }
         if ms > self.slow_bound_ms {
-            let d = describe();
-            self.violation("call exceeded the time bound", || json!({"case": d, "elapsed_ms": ms}));
+            // decided on CPU time: wall-clock time also counts the time this process was not running
+            let cpu = if self.progress.is_some() { own_cpu_ms().saturating_sub(self.call_cpu0) } else { ms };
+            if cpu > self.slow_bound_ms {
+                let d = describe();
+                self.violation("call exceeded the time bound", || json!({"case": d, "elapsed_ms": ms, "cpu_ms": cpu}));
+            } else {
+                self.stat("a call took longer than the time bound in wall-clock time but not in CPU time (machine load)");
+            }
         }
     }
 
@@ -410,11 +441,15 @@ fn spawn_worker(exe: &Path, prop: &str, tier: Tier, shard: u64, n: u64, start_af
 }
 
 fn read_progress(rundir: &Path, shard: u64) -> Option<(u64, u64, u64, u64)> {
+    read_progress_cpu(rundir, shard).map(|p| (p.0, p.1, p.2, p.3))
+}
+/// (unit, call, limit in s, wall-clock start in ms, CPU time of the worker at call start in ms)
+fn read_progress_cpu(rundir: &Path, shard: u64) -> Option<(u64, u64, u64, u64, u64)> {
     let mut f = std::fs::File::open(rundir.join(format!("w{shard}.cur"))).ok()?;
-    let mut rec = [0u8; 32];
+    let mut rec = [0u8; 40];
     f.read_exact(&mut rec).ok()?;
     let g = |i: usize| u64::from_le_bytes(rec[i * 8..i * 8 + 8].try_into().unwrap());
-    Some((g(0), g(1), g(2), g(3)))
+    Some((g(0), g(1), g(2), g(3), g(4)))
 }
 
 fn describe_case(exe: &Path, prop: &str, tier: Tier, unit: u64, sub: u64, rundir: &Path) -> Value {
@@ -495,10 +530,20 @@ pub fn explore_main(prop: &dyn Prop, tier: Tier, replay_one: impl Fn(&Value) -> 
                     all_done = false;
                     if let Some((u, _s, timeout, start)) = prog {
                         if u != u64::MAX && start > 0 && now_ms().saturating_sub(start) > timeout * 1000 {
-                            let _ = c.proc.kill();
-                            let _ = c.proc.wait();
-                            c.done = true;
-                            failed = Some(format!("call did not return within {timeout} s (watchdog)"));
+                            // wall-clock time is only the trigger; the verdict needs the worker to
+                            // have *computed* for that long inside this one call (two consistent
+                            // reads of the progress record around the CPU reading)
+                            let before = read_progress_cpu(&rundir, c.shard);
+                            let cpu_now = cpu_ms_of(c.proc.id());
+                            let after = read_progress_cpu(&rundir, c.shard);
+                            if let (Some(b), Some(cpu_now), Some(a)) = (before, cpu_now, after) {
+                                if b == a && b.0 == u && cpu_now.saturating_sub(b.4) > timeout * 1000 {
+                                    let _ = c.proc.kill();
+                                    let _ = c.proc.wait();
+                                    c.done = true;
+                                    failed = Some(format!("call did not return within {timeout} s of CPU time (watchdog)"));
+                                }
+                            }
                         }
                     }
                 }
